@@ -180,11 +180,13 @@ typedef struct {
   _Atomic long sig_done;        /* signals that have returned */
   _Atomic long sig_seq;
   long turns; int k;
+  int slow;                     /* the waiter dawdles until the early signaler has spun a few million times */
+  _Atomic int stop_fillers;
   _Atomic int * resumed;        /* per turn */
   _Atomic uint64_t * stamp;     /* per turn: stamp taken right before its signal */
 } rot_t;
 static rot_t g_rot;
-static _Atomic long g_rot_turns, g_rot_early, g_rot_prev_not_resumed;
+static _Atomic long g_rot_turns, g_rot_early, g_rot_prev_not_resumed, g_rot_slow_turns, g_rot_filler_cycles;
 
 static int rot_spin_until(_Atomic long * v, long want, const char * what, long turn) {
   long spins = 0;
@@ -209,7 +211,18 @@ static void * rot_waiter(void * a_) {
     long z = 0;
     int ok = atomic_compare_exchange_strong(&c->flag, &z, s);
     HK_CHECK(ok, "uncond:harness", "rotation flag was %ld when announcing turn %ld", z, s);
-    if (hk_below(&r, 3)) hk_work((unsigned)hk_below(&r, 4000));     /* no yield between announce and wait */
+    if (c->slow) {
+      /* a very late waiter: the signal for this turn has been spinning for a long time when the waiter arrives */
+      unsigned long long h0 = myth_verif_hits("UNC_SIG_SPIN");
+      struct timespec t0, t1; clock_gettime(CLOCK_MONOTONIC, &t0);
+      for (;;) {
+        hk_work(20000);
+        clock_gettime(CLOCK_MONOTONIC, &t1);
+        if (myth_verif_hits("UNC_SIG_SPIN") - h0 > 5000000ULL) break;
+        if ((t1.tv_sec - t0.tv_sec) * 1000 + (t1.tv_nsec - t0.tv_nsec) / 1000000 > 2500) break;
+      }
+      atomic_fetch_add(&g_rot_slow_turns, 1);
+    } else if (hk_below(&r, 3)) hk_work((unsigned)hk_below(&r, 4000));     /* no yield between announce and wait */
     int rc = myth_uncond_wait(&c->u);
     uint64_t now = myth_verif_stamp();
     HK_CHECK(rc == 0, "uncond:wait-rc", "wait returned %d", rc);
@@ -254,6 +267,21 @@ static void * rot_signaler(void * a_) {
   }
   return 0;
 }
+static void * rot_trivial(void * a) { return a; }
+/* bystanders: keep every worker's run queue busy (create/join, yields) while the rendezvous goes on */
+static void * rot_filler(void * a_) {
+  (void)a_;
+  long n = 0;
+  while (!atomic_load(&g_rot.stop_fillers)) {
+    myth_thread_t t = myth_create(rot_trivial, 0);
+    myth_yield_ex(myth_yield_option_steal_first);
+    myth_join(t, 0);
+    myth_yield();
+    n++;
+  }
+  atomic_fetch_add(&g_rot_filler_cycles, n);
+  return 0;
+}
 static void * rot_thread(void * a_) { hkm_targ_t * a = (hkm_targ_t *)a_; return a->idx < g_rot.k ? rot_waiter(a_) : rot_signaler(a_); }
 
 static void rotation_program(hk_rng_t * r) {
@@ -261,13 +289,21 @@ static void rotation_program(hk_rng_t * r) {
   memset(c, 0, sizeof(*c));
   c->k = 2 + (int)hk_below(r, ROT_MAXK - 1);
   c->turns = 150 + (long)hk_below(r, 800);
+  c->slow = (myth_get_num_workers() >= 3 && hk_below(r, 3) == 0);
+  if (c->slow) c->turns = 2 + (long)hk_below(r, 3);
   c->resumed = (_Atomic int *)calloc((size_t)c->turns + 2, sizeof(_Atomic int));
   c->stamp = (_Atomic uint64_t *)calloc((size_t)c->turns + 2, sizeof(_Atomic uint64_t));
   myth_uncond_init(&c->u);
   hkm_targ_t args[ROT_MAXK + 1];
   int i;
   for (i = 0; i <= c->k; i++) { args[i].idx = i; args[i].rseed = hk_rand(r); args[i].user = 0; }
+  myth_thread_t fillers[16];
+  int nf = c->slow ? 2 * myth_get_num_workers() : 0, f;
+  if (nf > 16) nf = 16;
+  for (f = 0; f < nf; f++) fillers[f] = myth_create(rot_filler, 0);
   hkm_run_threads(c->k + 1, rot_thread, args, 0);
+  atomic_store(&c->stop_fillers, 1);
+  for (f = 0; f < nf; f++) myth_join(fillers[f], 0);
   long s;
   for (s = 1; s <= c->turns; s++)
     HK_CHECK(atomic_load(&c->resumed[s]) == 1, "uncond:resume-count", "rotation: the waiter of turn %ld returned from wait %d times", s, atomic_load(&c->resumed[s]));
@@ -292,6 +328,8 @@ int main(int argc, char ** argv) {
   hk_report("signals_issued_before_waiter_published", atomic_load(&g_early_signal_possible));
   hk_report("slot_items", atomic_load(&g_items));
   hk_report("rotation_turns", atomic_load(&g_rot_turns));
+  hk_report("rotation_turns_with_very_late_waiter", atomic_load(&g_rot_slow_turns));
+  hk_report("rotation_bystander_cycles", atomic_load(&g_rot_filler_cycles));
   hk_report("rotation_signals_before_waiter_published", atomic_load(&g_rot_early));
   hk_report("rotation_signals_with_previous_waiter_not_resumed", atomic_load(&g_rot_prev_not_resumed));
   hk_report("workers", myth_get_num_workers());
